@@ -45,7 +45,7 @@ def directed(rng: random.Random) -> dict:
     body: list = [{"k": "org", "e": E(rng.choice([0x8000, 0x018000, 0xC08000 if False else 0x028123]))}]
     kind = rng.choice(["shadow_chain", "sibling_reuse", "qualified_forward", "qualified_backward", "leak_inner", "leak_sibling", "leak_macro", "leak_macro_qualified",
                        "leak_loop", "symbol_kinds", "named_in_named", "macro_local_vs_outer", "shadow_unsized", "block_if_label", "named_in_loop", "named_in_macro",
-                       "const_shadowed_by_later_inner", "symbol_kinds_unsized", "parameter_names_at_call_site", "application_expanding_to_nothing"])
+                       "const_shadowed_by_later_inner", "symbol_kinds_unsized", "parameter_names_at_call_site", "application_expanding_to_nothing", "namespace_reopened", "self_qualified"])
     expect_reject = False
     nop = {"k": "ins", "m": "nop", "shape": "imp", "sz": "", "e": None}
     if kind == "shadow_chain":
@@ -121,6 +121,29 @@ def directed(rng: random.Random) -> dict:
                  {"k": "block", "b": [lab("inb"), {"k": "call", "n": "tracem", "as": [E(2)]}, {"k": "block", "b": [dl("inb"), lab("inb")]}, dl("inb")]},
                  {"k": "for", "v": "itE", "a": E(0), "b": E(2), "body": [{"k": "call", "n": "onlyc", "as": [E("itE")]}, dbp("itE")]},
                  {"k": "call", "n": "putm", "as": [E(0x33)]}]
+    elif kind == "namespace_reopened":
+        # several places contribute to one namespace: every part stays visible under its qualified name
+        wrap = rng.random() < 0.4
+        parts = [{"k": "scope", "n": "gfx", "b": [lab("init"), nop, {"k": "assign", "n": "kone", "e": E(1)}]}, dl("gfx.init"),
+                 {"k": "scope", "n": "gfx", "b": [lab("draw"), nop, dl("init" if False else "draw")]}, dl("gfx.init", "gfx.draw"),
+                 {"k": "data", "d": "db", "es": [E("gfx.kone")]}]
+        if wrap:
+            body += [lab("gfx_outer"), {"k": "scope", "n": "outerns", "b": parts}, dl("outerns.gfx.init") if False else nop]
+        else:
+            body += parts
+        if rng.random() < 0.5:
+            body += [{"k": "scope", "n": "gfx", "b": [lab("third"), nop]}, dl("gfx.third", "gfx.init", "gfx.draw")]
+    elif kind == "self_qualified":
+        # a scope referring to its own members by their qualified names; member names share letters with the scope name
+        ns = rng.choice(["spr", "map", "s"])
+        members = {"spr": ["x", "y", "px", "py", "rx", "spx"], "map": ["w", "h", "mw", "ah", "pw"], "s": ["a", "sa", "ssa", "b"]}[ns]
+        inner = []
+        for mname in members:
+            inner += [lab(mname), nop]
+        inner += [{"k": "ins", "m": "sta", "shape": "dir", "sz": "w", "e": E(f"{ns}.{mname}")} for mname in members]
+        inner += [{"k": "block", "b": [dl(*[f"{ns}.{mname}" for mname in members])]}]
+        body[0] = {"k": "org", "e": E(0x8000)}
+        body += [{"k": "scope", "n": ns, "b": inner}, dl(*[f"{ns}.{mname}" for mname in members])]
     elif kind == "sibling_reuse":
         for i in range(rng.randint(2, 4)):
             body.append({"k": "block", "b": [dl("loop1"), lab("loop1"), nop, dl("loop1"), {"k": "block", "b": [dl("loop1")]}]})
